@@ -134,6 +134,24 @@ def sweep_docs(fmt, quick):
             if L < 256:
                 docs.append(list(b"[$S#U\x02" + (ulen(L) + plain) * 2))
                 docs.append(list(b"[$U#" + ulen(L) + plain))
+    if fmt == "ubjson":
+        # payloads that start with the byte value of a marker, where no marker is expected (typed containers, texts)
+        size = dict(i=1, U=1, C=1, I=2, l=4, L=8, d=4, D=8)
+        for m in b"NZTF[]{}#$iUIlLdDCSH":
+            for t, n in size.items():
+                pay = bytes([m]) + b"A" * (n - 1)
+                tb = t.encode()
+                docs.append(list(b"[$" + tb + b"#U\x02" + pay + pay))
+                docs.append(list(b"{$" + tb + b"#U\x01U\x01a" + pay))
+                docs.append(list(b"[{$" + tb + b"#U\x02U\x01a" + pay + b"U\x01b" + pay + b"T]"))
+                docs.append(list(b"[#U\x02" + tb + pay + b"[$" + tb + b"#U\x01" + pay))
+                docs.append(list(b"{#U\x01U\x01a" + tb + pay))
+            mb = bytes([m])
+            docs.append(list(b"SU\x01" + mb))
+            docs.append(list(b"{U\x01" + mb + b"SU\x02" + mb + mb + b"}"))
+            docs.append(list(b"{$S#U\x01U\x01" + mb + b"U\x01" + mb))
+            docs.append(list(b"[$S#U\x02U\x01" + mb + b"U\x00"))
+            docs.append(list(b"[$H#U\x01U\x011") if m == ord("H") else list(b"[C" + mb + b"]"))
     return docs
 
 
@@ -205,6 +223,22 @@ def c06(ctx):
 def c04(ctx):
     rows = gen_json(ctx, "lang")
     cases = conformance_cases(ctx, "C04", "json", rows)
+    # a long-lived parser fed one text per Parse call, the previous one malformed: json.Parser.Parse re-initialises the parser
+    probes = [list(t) for t in (b'{"k":"v"}', b'[{"id":1}]', b'"s"', b'12', b'[1.5,"x",null]', b'{"a":{"b":[true]}}', b'{"\\n":2}', b'[]', b'-0.5e1 ',
+                                b'{"' + b"k" * 70 + b'":"' + b"v" * 70 + b'"}')]
+    bad = set()
+    for t in (b'{"msg": "hello wor', b'[1, 2, 3.', b'{"key\\u00e9": [tru', b'["a\\', b'{"a":1,"bcd', b'[-', b'{"a" 1}', b'[1 2]', b'nul', b'"\\ud83d', b'[1e', b'{"' + b"q" * 80,
+              b'["' + b"w" * 80, b'[123456789012345678901234567890'):
+        bad.add(bytes(t))
+    valid = [r["doc"] for r in rows if r["class"] == "complete" and len(r["doc"]) >= 4]
+    ctx.rng.shuffle(valid)
+    for d in valid[: 40 if ctx.quick else 400]:
+        for k in range(1, len(d)):
+            bad.add(bytes(d[:k]))
+    for h in sorted(bad):
+        for pr in probes:
+            cases.append(case("C04", "reuse", "json", doc=pr, sub=dict(component="parser", mode="parse", history=[list(h)], afterfail=True),
+                              origin="Parse after a failed Parse"))
     number(cases)
     tf, st = core.run_harness(ctx, cases)
     failed, n = core.tlc_validate(ctx, "TraceCodec", tf)
@@ -215,7 +249,9 @@ def c04(ctx):
              "coverage.generators: all grammatical sequences of structural characters, whitespace, 36 number literals (64-bit and float "
              "boundaries), literals and strings, every string being a sequence of string items (raw 1-4 byte UTF-8, every escape, "
              "\\u escapes incl. lone/paired surrogates), plus every one-step violation of the bracket/comma/colon structure; each "
-             "document is parsed by json.Parse and validated by TraceCodec (floats via the math/big number table). Distinct = distinct "
+             "document is parsed by json.Parse and validated by TraceCodec (floats via the math/big number table); in addition valid "
+             "probe texts are parsed by Parse on a parser whose previous Parse failed on a truncated or malformed text (every "
+             "truncation point of seeded valid documents) and compared with a fresh parser. Distinct = distinct "
              "byte strings; non-trivial = more than 3 bytes.",
         nontrivial=lambda c: len(c["doc"]) > 3,
         assumptions=TCB + ["decimal -> binary64 rounding of number literals is taken from math/big (harness num.go), not from the specification"])
@@ -655,9 +691,21 @@ def c18(ctx):
             else:
                 d = [b for p in parts for b in p]
             streams_.append(d)
+        # values whose tokens are longer than the parsers' internal buffers, so that a token spans several reads
+        longdocs = [d for d in sweep_docs(fmt, True) if 60 <= len(d) <= 320 and (fmt != "json" or is_container_doc("json", d))]
+        rnd.shuffle(longdocs)
+        for j, ld in enumerate(longdocs[: 60 if ctx.quick else 400]):
+            other = rnd.choice(short or rows)
+            if fmt == "json" and not is_container_doc("json", other):
+                other = other + [0x20]
+            streams_.append([ld + other, other + ld + ld, ld][j % 3])
         for d in streams_:
             n = len(d)
             cases.append(case("C18", "parse", fmt, doc=d, entry="decbytes", origin="stream"))
+            if n > 40:
+                for k, buf in ((1, 1), (7, 7), (13, 16), (50, 64), (64, 64), (65, 100), (100, 1000), (3, 64)):
+                    cases.append(case("C18", "parse", fmt, doc=d, entry="decreader", plan=[k] * (n // k + 1), buf=buf, eofwith=(k + j) % 2 == 0,
+                                      origin="stream with long tokens"))
             if n <= maxall:
                 plans = list(compositions(n))
             else:
@@ -685,7 +733,8 @@ def c18(ctx):
         rule="streams of 1-3 complete top-level values built from TLC-enumerated documents (JSON scalars followed by a separator) read "
              "through NewBytesDecoder and through NewDecoder over a scripted io.Reader: for streams up to %d bytes EVERY composition of "
              "the length into read sizes (exhaustive), longer ones with fixed and seeded plans; buffer sizes 1/2/3/7/64, io.EOF with the "
-             "last data or after it, zero-byte reads interleaved; plus streams cut inside the last value. TraceCodec requires Next #i to "
+             "last data or after it, zero-byte reads interleaved; streams with strings/member names of 60-300 bytes (longer than the "
+             "parsers' internal buffers) read in 1/3/7/13/50/64/65/100-byte steps; plus streams cut inside the last value. TraceCodec requires Next #i to "
              "deliver exactly value i of the reference decoding, then io.EOF, and a non-EOF error for a truncated stream. Distinct = "
              "distinct (stream, reader plan, buffer); non-trivial = at least 2 values or 4 bytes." % maxall,
         nontrivial=lambda c: len(c["doc"]) >= 4,
@@ -1214,8 +1263,25 @@ def c19(ctx):
                          ["NoRace", "Ownership"], "SFInstances-owned")
     core.tlc_expect_violation(ctx, "SFInstances", dict(Procs={1, 2}, Types={"T1", "T2"}, Shared=True), "NoRace", "SFInstances-shared")
     cases = []
-    for j in range(12 if ctx.quick else 60):
-        cases.append(case("C19", "conc", "go", sub=dict(n=8 if j % 2 == 0 else 16, rounds=30 if ctx.quick else 60, salt=ctx.seed * 1000 + j), origin="stress round %d" % j))
+    # codec pipelines inside the stress rounds: TLC-enumerated event streams (every event kind, extended events, the string /
+    # number boundary tables), a different slice of them per round so that the same code paths coincide in time.
+    # (Go iterates maps in random order: map events with two entries have no fixed byte image and are left out.)
+    rnd = ctx.rng
+    shapes = [s for s in gen_events(ctx, quick=True) if len(s) <= 6 and not any(a["k"] == "xobj" and a["n"] >= 2 for a in s)]
+    single = [s for s in shapes if len(s) == 1]
+    pool = []
+    for s in single:
+        pool += streams.fills(s, 1, rnd)
+    for s in pick_diverse([s for s in shapes if len(s) > 1], shape_sig, 200 if ctx.quick else 1500, rnd):
+        pool += streams.fills(s, 1, rnd)[:1]
+    pool += [st for st in streams.length_sweep(True) if len(st) <= 4][::7]
+    rnd.shuffle(pool)
+    nround = 12 if ctx.quick else 60
+    per = 48
+    for j in range(nround):
+        sl = [pool[(j * per + k) % len(pool)] for k in range(per)]
+        cases.append(case("C19", "conc", "go", sub=dict(n=8 if j % 2 == 0 else 16, rounds=30 if ctx.quick else 60, salt=ctx.seed * 1000 + j, streams=sl),
+                          origin="stress round %d" % j))
     number(cases)
     tf, st = core.run_harness(ctx, cases, binary=race_bin, deadline=120000, workers=2)
     failed, nv = core.tlc_validate(ctx, "TraceCodec", tf)
@@ -1225,7 +1291,9 @@ def c19(ctx):
         rule="(model) TLC explores ALL interleavings of registry lookups/compilations/insertions of the goroutines in SFInstances: with "
              "per-instance registries NoRace and Ownership hold in every interleaving; with a shared registry (negative control) TLC "
              "finds a race. (code) stress rounds of 8/16 goroutines x 30-60 pipelines fold->encode->parse->unfold each on NEW instances "
-             "over shared input values and shared Go types (so first-use compilation recurs), under the race detector "
+             "over shared input values and shared Go types (so first-use compilation recurs), plus 4 codec pipelines per round over "
+             "TLC-enumerated event streams (every event kind and extended event, boundary strings/numbers, 48 streams per stress round) "
+             "encode->parse on new instances with all three formats, under the race detector "
              "(halt_on_error); every result is compared with the sequential result and the registry identity of every instance is "
              "recorded while all instances are kept alive: equal identities = shared registry = the model's racy configuration, "
              "whatever schedule the run took. Distinct = stress rounds; non-trivial = all.",
